@@ -167,7 +167,18 @@ pub fn corpus(outp: &str) {
     if let Ok(ast) = ModuleAst::parse(msrc) {
         out.line(&json!({"type": "ModuleAst", "hex": hex(&ast.to_bytes(assembly::ast::AstSerdeOptions::new(true)))}));
     }
-    let lib = stdlib::StdLibrary::default();
-    let _ = lib;
+    // length-limited text fields at their limits: module docs, procedure docs (u16 length prefixes), long names
+    let big = "d".repeat(65535 - 1);
+    let name = "n".repeat(100);
+    let msrc2 = format!("#! {big}\n\nuse.std::math::u64\n#! {big}\nexport.{name}.1\n push.1 loc_store.0\nend\n#! {big}\nexport.u64::checked_add->cadd\n");
+    match ModuleAst::parse(&msrc2) {
+        Ok(ast) => out.line(&json!({"type": "ModuleAst", "hex": hex(&ast.to_bytes(assembly::ast::AstSerdeOptions::new(true))), "big": true})),
+        Err(e) => eprintln!("corpus: big-docs module does not parse: {e:?}"),
+    }
+    let psrc2 = format!("#! {big}\nproc.{name}\n push.1\nend\nbegin exec.{name} end");
+    match ProgramAst::parse(&psrc2) {
+        Ok(ast) => out.line(&json!({"type": "ProgramAst", "hex": hex(&ast.to_bytes(assembly::ast::AstSerdeOptions::new(true))), "big": true})),
+        Err(e) => eprintln!("corpus: big-docs program does not parse: {e:?}"),
+    }
     out.flush();
 }
